@@ -238,11 +238,24 @@ class DataConnection(Connection, abc.ABC):
                 self._reader, self._writer = await asyncio.open_connection(
                     self.hostname, self.port)
 
+        except asyncio.CancelledError:
+            # The connecting task got cancelled: the connection ends here
+            await self.disconnect(CloseReason.CONNECT_FAILED)
+            raise
+
         except (Exception, asyncio.TimeoutError) as exc:
             await self.disconnect(CloseReason.CONNECT_FAILED)
             raise ConnectionFailedError(f"{self.hostname}:{self.port} : failed to connect") from exc
 
         else:
+            if self.state != ConnectionState.CONNECTING:
+                # `disconnect` was called while the connection was being opened,
+                # the connection is already closed: drop the new socket
+                writer, self._reader, self._writer = self._writer, None, None
+                writer.close()
+                raise ConnectionFailedError(
+                    f"{self.hostname}:{self.port} : disconnected while connecting")
+
             adapter.debug("connected", extra=self.__dict__)
             await self.set_state(ConnectionState.CONNECTED)
 
